@@ -74,7 +74,9 @@ type sym struct {
 	p     *sess.ParamSpec
 	id    *gen.ID128
 	multi string
-	stamp string // "own" | "none" | "wrong"
+	stamp string // "own" | "none" | "wrong" | "zero"
+	// stamps (random campaign only): one request carrying several operations stamped differently
+	stamps []string
 }
 
 func symbols(allParams bool) []sym {
@@ -104,6 +106,13 @@ func symbols(allParams bool) []sym {
 		out = append(out, sym{k: "multi", multi: m})
 	}
 	out = append(out, sym{k: "empty"}, sym{k: "halfclose"})
+	if allParams {
+		// (appended: the biases of the random campaign address the symbols above by position)
+		for _, st := range [][]string{{"own", "own", "own"}, {"own", "wrong", "own"}, {"zero", "none"}, {"zero", "own", "none"}, {"own", "none", "own"}, {"wrong", "zero", "own"}, {"none", "own"}, {"own", "zero"}} {
+			out = append(out, sym{k: "ops", stamps: st})
+		}
+		out = append(out, sym{k: "ops", stamp: "zero"})
+	}
 	return out
 }
 
@@ -118,18 +127,27 @@ func build(seq [][2]int, syms []sym) sess.Script {
 			last[s] = y.id
 		}
 		if y.k == "ops" {
-			var stamp *gen.ID128
-			switch y.stamp {
-			case "own":
-				if last[s] != nil {
-					stamp = last[s]
-				} else {
-					stamp = &gen.ID128{Hi: 0, Lo: 1}
+			stampOf := func(how string) *gen.ID128 {
+				switch how {
+				case "own":
+					if last[s] != nil {
+						return last[s]
+					}
+					return &gen.ID128{Hi: 0, Lo: 1}
+				case "wrong":
+					return &gen.ID128{Hi: 0, Lo: 9}
+				case "zero":
+					return &gen.ID128{}
 				}
-			case "wrong":
-				stamp = &gen.ID128{Hi: 0, Lo: 9}
+				return nil
 			}
-			st.Ops = []*gen.Op{nhOp(uint64(i+1), stamp)}
+			if len(y.stamps) > 0 {
+				for j, how := range y.stamps {
+					st.Ops = append(st.Ops, nhOp(uint64(100*(i+1)+j), stampOf(how)))
+				}
+			} else {
+				st.Ops = []*gen.Op{nhOp(uint64(i+1), stampOf(y.stamp))}
+			}
 		}
 		sc.Steps = append(sc.Steps, st)
 	}
